@@ -544,3 +544,83 @@ Print Assumptions fold_mirror.
 Print Assumptions py_traph_most_linked_spec.
 Print Assumptions F7_from_source.
 
+(* ====================================================================================== *)
+(* 6. non-vacuity: the translated request run on the bytes of the two files of the state  *)
+(*    reached by GenTraphLFacts.exh_l (ex_pa linked from three pages, ex_pl from one,     *)
+(*    ex_pxy = ...p:x|p:y| from NOBODY), for the prefixes of webentity 1                   *)
+(* ====================================================================================== *)
+From Traph Require IdFacts PropsEx.
+Import IdFacts PropsEx.
+
+Definition ex_ps_l : list bytes := map fst (filter (fun x => snd x =? 1) (prefix_iter exs_l)).
+
+(* k = 10, no depth limit: everything, in descending (indegree, arrival) order; the page without in-link has 1 *)
+Example ex_most_linked_all :
+  option_map snd (py_traph_get_webentity_most_linked_pages ex_sgt ex_sgl 1 ex_ps_l 10 None)
+    = res_opt (most_linked ex_ps_l 10 None exs_l) /\
+  option_map snd (py_traph_get_webentity_most_linked_pages ex_sgt ex_sgl 1 ex_ps_l 10 None)
+    = Some [(ex_pa, 3); (ex_pxy, 1); (ex_pl, 1)] /\
+  length ex_ps_l = 4%nat.
+Proof. vm_compute. repeat split; reflexivity. Qed.
+
+(* k = 2, depth limit 1: ex_pxy (two stems below the prefix) is out of reach *)
+Example ex_most_linked_depth :
+  option_map snd (py_traph_get_webentity_most_linked_pages ex_sgt ex_sgl 1 ex_ps_l 2 (Some 1))
+    = res_opt (most_linked ex_ps_l 2 (Some 1) exs_l) /\
+  option_map snd (py_traph_get_webentity_most_linked_pages ex_sgt ex_sgl 1 ex_ps_l 2 (Some 1))
+    = Some [(ex_pa, 3); (ex_pl, 1)].
+Proof. vm_compute. split; reflexivity. Qed.
+
+(* the bound cuts: k = 1 and k = 2 without depth limit (the later arrival wins among equal degrees); k = 0 *)
+Example ex_most_linked_cut :
+  option_map snd (py_traph_get_webentity_most_linked_pages ex_sgt ex_sgl 1 ex_ps_l 1 None) = Some [(ex_pa, 3)] /\
+  most_linked ex_ps_l 1 None exs_l = ROk [(ex_pa, 3)] /\
+  option_map snd (py_traph_get_webentity_most_linked_pages ex_sgt ex_sgl 1 ex_ps_l 2 None) = Some [(ex_pa, 3); (ex_pxy, 1)] /\
+  most_linked ex_ps_l 2 None exs_l = ROk [(ex_pa, 3); (ex_pxy, 1)] /\
+  option_map snd (py_traph_get_webentity_most_linked_pages ex_sgt ex_sgl 1 ex_ps_l 0 None) = Some [] /\
+  most_linked ex_ps_l 0 None exs_l = ROk [].
+Proof. vm_compute. repeat split; reflexivity. Qed.
+
+(* a prefix that is not in the trie, whatever its position: TraphException / refusal *)
+Example ex_most_linked_absent :
+  py_traph_get_webentity_most_linked_pages ex_sgt ex_sgl 1 (ex_ps_l ++ [ex_px ++ [112; 58; 122; 124]]) 10 None = None /\
+  most_linked (ex_ps_l ++ [ex_px ++ [112; 58; 122; 124]]) 10 None exs_l = RRefused /\
+  py_traph_get_webentity_most_linked_pages ex_sgt ex_sgl 1 ((ex_px ++ [112; 58; 122; 124]) :: ex_ps_l) 10 None = None /\
+  most_linked ((ex_px ++ [112; 58; 122; 124]) :: ex_ps_l) 10 None exs_l = RRefused.
+Proof. vm_compute. repeat split; reflexivity. Qed.
+
+(* F7 on the example: nobody links to ex_pxy - no link of the specification's state ends there, its in-head is null in the
+   model - and the translated code lists it with indegree 1 *)
+Example ex_F7 :
+  s_indegree ex_pxy (srun Domain [] exh_l) = 0 /\
+  option_map inh (find (lru_iter ex_pxy) (tr exs_l)) = Some 0 /\
+  option_map (fun r => existsb (fun x => beq (fst x) ex_pxy && (snd x =? 1)) (snd r))
+    (py_traph_get_webentity_most_linked_pages ex_sgt ex_sgl 1 ex_ps_l 10 None) = Some true.
+Proof. vm_compute. repeat split; reflexivity. Qed.
+
+(* the hypotheses of the theorem are met by that history and the two files, and the theorem then gives the replies above *)
+Lemma ex_ps_l_wfb : forallb wf_lrub ex_ps_l = true.
+Proof. vm_compute. reflexivity. Qed.
+Lemma ex_ps_l_wf : Forall wf_lru ex_ps_l.
+Proof.
+  apply Forall_forall. intros p Hp. apply wf_lrub_ok.
+  exact (proj1 (forallb_forall wf_lrub ex_ps_l) ex_ps_l_wfb p Hp).
+Qed.
+
+Example ex_most_linked_by_theorem : exists sg',
+  py_traph_get_webentity_most_linked_pages ex_sgt ex_sgl 1 ex_ps_l 10 None
+    = Some (sg', [(ex_pa, 3); (ex_pxy, 1); (ex_pl, 1)]) /\
+  trep (files_of exs_l) sg' /\ pm_array sg' = pm_array ex_sgt.
+Proof.
+  assert (H1 : fits (nb exs_l * bsz)) by (vm_compute; reflexivity).
+  assert (H2 : fits (saddr (length (stubs exs_l)))) by (vm_compute; reflexivity).
+  pose proof (py_traph_most_linked_spec Domain [] exh_l ex_rules_wf exh_l_wf ex_sgt ex_sgl 1 ex_ps_l 10 None
+                ex_trep_l ex_lrep_l H1 H2 ex_ps_l_wf) as H.
+  replace (most_linked ex_ps_l 10 None (run Domain [] exh_l))
+    with (ROk [(ex_pa, 3); (ex_pxy, 1); (ex_pl, 1)]) in H by (vm_compute; reflexivity).
+  exact H.
+Qed.
+
+Print Assumptions ex_most_linked_all.
+Print Assumptions ex_F7.
+Print Assumptions ex_most_linked_by_theorem.
